@@ -1303,7 +1303,8 @@ struct ScriptedServer {
 // cl <threads> <maxconn> <settleMs> <behaviours: I|D<ms>|B|K|X|N, each optionally :t<ms> = client time-out, comma separated;
 //    a token "/" = the requests after it are issued only when all earlier ones are settled (batches)>
 // clp <threads> <maxconn> <settleMs> <appthreads> <behaviours>: the same, but the requests are issued by <appthreads> APPLICATION
-// threads released together (request i by thread i mod appthreads): the first requests of a fresh client reach the pool concurrently
+// threads released together (request i by thread i mod appthreads): the first requests of a fresh client reach the pool concurrently;
+// with "/" the threads are released again on every batch, racing for warm idle connections
 std::string opClient(const std::vector<std::string>& w0)
 {
     std::vector<std::string> w = w0; int app = 1;
@@ -1354,15 +1355,50 @@ std::string opClient(const std::vector<std::string>& w0)
             issue(i);
         }
     } else {
-        std::atomic<int> ready { 0 }; std::atomic<bool> go { false };
-        std::vector<std::thread> ths;
-        for (int t = 0; t < app; ++t) ths.emplace_back([&, t] {
-            ++ready; while (!go.load()) { }
-            for (size_t i = static_cast<size_t>(t); i < beh.size(); i += static_cast<size_t>(app)) issue(i);
-        });
-        while (ready.load() < app) std::this_thread::yield();
-        go = true;
-        for (auto& th : ths) th.join();
+        // batches ("/"): the threads are released together on each batch once everything before it is settled - from the second
+        // batch on they race for connections that are established and idle
+        size_t from = 0; bool gaveUp = false;
+        while (from < beh.size()) {
+            size_t to = from + 1;
+            while (to < beh.size() && !breakBefore[to]) ++to;
+            if (from > 0) {
+                auto t1 = std::chrono::steady_clock::now();
+                for (;;) {
+                    bool all = true; { std::lock_guard<std::mutex> g(res.m); for (size_t k = 0; k < from; ++k) if (res.out[k] == "pending") all = false; }
+                    if (all) break;
+                    if (std::chrono::steady_clock::now() - t1 > std::chrono::milliseconds(settle)) { gaveUp = true; break; }
+                    std::this_thread::sleep_for(std::chrono::microseconds(200));
+                }
+                if (gaveUp) break;      // something never settled: the later batches are not issued (they stay "pending" in the report)
+                std::this_thread::sleep_for(std::chrono::milliseconds(2));
+            }
+            std::atomic<int> ready { 0 }; std::atomic<bool> go { false };
+            std::vector<std::thread> ths;
+            for (int t = 0; t < app; ++t) ths.emplace_back([&, t] {
+                // everything that can be done beforehand is: after the release a thread goes straight into send()
+                std::vector<std::pair<size_t, Http::Experimental::RequestBuilder>> mine;
+                for (size_t i = from + static_cast<size_t>(t); i < to; i += static_cast<size_t>(app)) {
+                    auto rb = client.get("http://127.0.0.1:" + std::to_string(srv.port) + "/r" + std::to_string(i));
+                    if (beh[i].timeoutMs > 0) rb.timeout(std::chrono::milliseconds(beh[i].timeoutMs));
+                    mine.emplace_back(i, std::move(rb));
+                }
+                ++ready; while (!go.load(std::memory_order_acquire)) { }
+                for (auto& e : mine) {
+                    size_t i = e.first;
+                    auto p = e.second.send();
+                    p.then([&res, i](Http::Response r) { std::lock_guard<std::mutex> g(res.m); res.out[i] = "ok:" + r.body(); ++res.count[i]; },
+                           [&res, i](std::exception_ptr ex) {
+                               std::string what = "?"; try { std::rethrow_exception(ex); } catch (const std::exception& x) { what = x.what(); } catch (...) { }
+                               std::string cls = what == "Timeout" ? "timeout" : (what.find("closed") != std::string::npos ? "closed" : "error");
+                               std::lock_guard<std::mutex> g(res.m); res.out[i] = "rej:" + cls; ++res.count[i]; });
+                    std::lock_guard<std::mutex> g(keepM); keep.push_back(std::move(p));
+                }
+            });
+            while (ready.load() < app) std::this_thread::yield();
+            go = true;
+            for (auto& th : ths) th.join();
+            from = to;
+        }
     }
     // wait until everything is settled or the settle time is over
     auto t0 = std::chrono::steady_clock::now();
